@@ -80,6 +80,11 @@ CLAIMED = {
     text='exit0_only_if_true_result, deliver_only_after_finished, ack_then_eof_local, lost_before_ack and ignore_io_error_always_local are proved over the whole alphabet of handle_compile_response; the real client binary is run against a fake server for every symbol (34 cases, 0 disagreements required); the real server is SIGKILLed during detection, preprocessing and compilation and bombarded with malformed frames while another client compiles.',
     note='Trusted: Lean kernel, Model/Client.lean (tied exhaustively by the fake-server run), bincode frame layout of the fake server. TCP half-open timing is not modelled.',
     ref='DESIGN.md section 4 C11, Appendix B.7, D.4'),
+
+ 'C13': dict(technique='Lean 4 proof (total decision function of dist_or_local_compile over stages x error classes; exit-status round trip for all codes) + exhaustive enumeration of that alphabet on the real get_cached_or_compile with a scripted dist::Client + real scheduler scenarios',
+    text='fallback_total, other_failures_fall_back, remote_only_without_failure, cleanup_complete and exit_status_roundtrip (all codes 0..255, after the fix of F-C13-a) are proved; the real dist_or_local_compile is driven by an own dist::Client failing at every stage with every error class (20 cases, exhaustive over the model alphabet), and a real server with dist configured is run against a missing scheduler, a real scheduler without capacity and a wrong token. Partial: no real build server can run here (no bubblewrap/docker); the remote argument vector is not modelled.',
+    note='Trusted: Lean kernel, Model/Dist.lean (tied by h_dist). F-C13-a was a genuine defect repaired by a fix: commit.',
+    ref='DESIGN.md section 4 C13, Appendix B.8'),
 }
 NA_REASON = 'not yet wired into ./check in this round (model and theorems exist under lean/; see DESIGN.md section 0.1)'
 def hooks():
